@@ -19,7 +19,8 @@ RULE = ("Hypothesis-generated COND sources over the documented constructors (run
         "faults placed in needed and unneeded definitions. Oracle = schema model written from the reference docs (values are "
         "re-evaluated by the model from their source text) + 'clean outcome' predicate (exit 0/1, ERROR: line, no Traceback, "
         "file named, zero spawns, no task output created) for `cond run --check T` and `cond run T`. Non-trivial = the case "
-        "contains >=1 fault or >=1 include and the target's closure has >=2 tasks. Distinct = SHA-1 of case JSON.")
+        "contains >=1 fault or >=1 include and the target's closure has >=2 tasks. Distinct = SHA-1 of case JSON."
+        " Also generated: include(path=...), included files whose functions use the file's own top-level names, complex/Decimal/Fraction values (not primitive).")
 ASSUMPTIONS = ["strings containing NUL and COND files raising BaseException subclasses (SystemExit, KeyboardInterrupt) are outside the domain",
                "a task-level fault (malformed dep string, non-primitive arg, ...) in a definition the command does not need may be accepted or rejected",
                "ill-typed chain_experiments is a don't-care (documented as Boolean, implemented by truthiness)"]
